@@ -1,5 +1,6 @@
 import RdpModel.Wire.Session
 import RdpModel.Props.C12
+import RdpModel.Props.C04
 /-
   C03 — the connection sequence conforms end to end.
   `Session.connectTrace` is the model of `mcs::Client::connect` + `sec::connect` (the
@@ -8,7 +9,7 @@ import RdpModel.Props.C12
   font-list per demand-active) is the Global model of C12.
 -/
 namespace Rdp.Session
-open Rdp Rdp.Emit Rdp.Connect Rdp.Secrets
+open Rdp Rdp.Emit Rdp.Connect Rdp.Secrets Rdp.Schema Rdp.Global Rdp.Nla
 
 /-- the complete script of a successful connect phase -/
 def fullScript (ci ed au j1 j2 info : Bytes) : List Io :=
@@ -176,5 +177,167 @@ theorem c03_attach_conforming (uid : Nat) (h1 : 1001 ≤ uid) (h2 : uid ≤ 6553
 /-- shutdown writes a disconnect-provider ultimatum and nothing else -/
 theorem c03_shutdown : x224Frame Mcs.disconnectUltimatum = .ok [3, 0, 0, 9, 2, 0xf0, 0x80, 0x21, 0x80] := by
   decide
+
+/-- channel-join-confirm of a conforming server: any user id 1001..65535, any channel -/
+theorem c03_join_conforming (uid chan : Nat) (h1 : 1001 ≤ uid) (h2 : uid ≤ 65535) (h3 : chan ≤ 65535) :
+    readChannelJoinConfirm uid chan ([0x3e, 0x00] ++ be16 (uid - 1001) ++ be16 chan ++ be16 chan) = .ok true := by
+  obtain ⟨a, b, hab, hv⟩ := be16_two (uid - 1001)
+  obtain ⟨c, d, hcd, hw⟩ := be16_two chan
+  have e1 := hv (by omega)
+  have e2 := hw (by omega)
+  rw [hab, hcd]
+  simp [readChannelJoinConfirm, rrO, Per.readU8, Per.readInteger16, Per.readU16be, rdExact, RR.bind, leNat, decInt, Outcome.bind]
+  have hlt : b.toNat + 256 * a.toNat + 1001 < 65536 := by omega
+  have hlt2 : d.toNat + 256 * c.toNat < 65536 := by omega
+  rw [if_pos hlt]
+  simp
+  have hl : leNat [d, c] = d.toNat + 256 * c.toNat := by simp [leNat]
+  rw [hl, if_pos hlt2]
+  simp
+  rw [if_pos (by omega), if_pos (by omega)]
+
+/-- the two accepted-licence variants of a conforming server, sent on the I/O channel -/
+def licenceErrorValid : Bytes := [0x80, 0, 0, 0, 0xff, 0x03, 0x10, 0x00, 7, 0, 0, 0, 2, 0, 0, 0, 4, 0, 0, 0]
+def licenceNew : Bytes := [0x80, 0, 0, 0, 0x03, 0x03, 0x04, 0x00]
+def sdin (data : Bytes) : Bytes := [0x68, 0x00, 0x01, 0x03, 0xeb, 0x70, UInt8.ofNat data.length] ++ data
+
+theorem c03_licence_conforming (uid : Nat) :
+    secRead uid (sdin licenceErrorValid) = .ok () ∧ secRead uid (sdin licenceNew) = .ok () := by
+  constructor
+  · have : ∀ u, secRead u (sdin licenceErrorValid) = secRead 0 (sdin licenceErrorValid) := by
+      intro u
+      simp [secRead, Mcs.read, sdin, licenceErrorValid, Per.readU8, Per.readInteger16, Per.readU16be, Per.readLength, rdExact, RR.bind, leNat, decInt, Outcome.bind]
+    rw [this]; decide
+  · have : ∀ u, secRead u (sdin licenceNew) = secRead 0 (sdin licenceNew) := by
+      intro u
+      simp [secRead, Mcs.read, sdin, licenceNew, Per.readU8, Per.readInteger16, Per.readU16be, Per.readLength, rdExact, RR.bind, leNat, decInt, Outcome.bind]
+    rw [this]; decide
+/-- GCC conference-create response of a conforming server with the three mandatory blocks,
+    no extra channels: any version, any selected protocol -/
+def gccResponse (a b c d e f g h : UInt8) : Bytes :=
+  [0x00, 0x05, 0x00, 0x14, 0x7c, 0x00, 0x01, 0x2e,
+   0x14, 0x76, 0x0a, 0x01, 0x01, 0x00, 0x01, 0xc0, 0x00, 0x4d, 0x63, 0x44, 0x6e, 0x20,
+   0x01, 0x0c, 0x0c, 0x00, a, b, c, d, e, f, g, h,
+   0x02, 0x0c, 0x0c, 0x00, 0, 0, 0, 0, 0, 0, 0, 0,
+   0x03, 0x0c, 0x08, 0x00, 0xeb, 0x03, 0x00, 0x00]
+
+set_option maxHeartbeats 1000000 in
+theorem c03_gcc_conforming (a b c d e f g h : UInt8) :
+    readConferenceCreateResponse (gccResponse a b c d e f g h) = .ok ⟨[], versionOf (leNat [a, b, c, d])⟩ := by
+  simp [readConferenceCreateResponse, gccResponse, rrO, Per.readU8, Per.readOid, Per.readLength, Per.readInteger16, Per.readInteger, Per.readU16be, Per.readOctetStream, Per.readOctetStream.go,
+    rdExact, RR.bind, Outcome.bind, leNat, decInt, t124Oid, h221ScKey, readBlocks, read, readFields, readStep, blockHeaderTmpl, serverCoreTmpl, serverSecurityTmpl, serverNetTmpl, u16le, u32le,
+    castComp, castU16, castU32, castTrame, field, lookupField, unwrapVisit, readAll, options, evalOpt, addSkip, addSize, lookupSize, intVal, write, encInt, leBytes, readArrayLoop, versionOf]
+  try rfl
+
+/-- the replies of a conforming server: any user id, any reported version and selected
+    protocol, either licence variant, either join order -/
+def conformingReplies (uid sel first : Nat) (va vb vc vd sa sb sc sd : UInt8) (newLicence : Bool) : Replies :=
+  let second := if first = 1003 then uid else 1003
+  ⟨sel, .ok (gccResponse va vb vc vd sa sb sc sd), [0x2e, 0x00] ++ be16 (uid - 1001), first,
+   [0x3e, 0x00] ++ be16 (uid - 1001) ++ be16 first ++ be16 first,
+   [0x3e, 0x00] ++ be16 (uid - 1001) ++ be16 second ++ be16 second,
+   sdin (if newLicence then licenceNew else licenceErrorValid)⟩
+
+theorem stage2_ok : stage2 = .ok ([3, 0, 0, 12, 2, 0xf0, 0x80, 4, 1, 0, 1, 0], [3, 0, 0, 8, 2, 0xf0, 0x80, 0x28]) := by decide
+
+theorem joinFrame_ok (uid chan : Nat) (h : 1001 ≤ uid) : ∃ j, joinFrame uid chan = .ok j := by
+  unfold joinFrame
+  rw [c03_join_ids uid chan h]
+  simp [x224Frame, x224DataHeader, be16, encInt]
+
+theorem stage1_ok (c : Cfg) (r : Replies) : ∃ ci, stage1 c r = .ok ci := by
+  unfold stage1 connectInitialFrame conferenceCreateRequest
+  have hud := c04_userData_size c.width c.height c.layout r.selected c.name
+  have h1 : Per.writeOid [0, 0, 20, 124, 0, 1] = .ok [5, 0, 20, 124, 0, 1] := by decide
+  have h2 : Per.writeNumericString [0x31] 1 = .ok [0, 0x10] := by decide
+  rw [h1, h2]
+  simp only [Outcome.bind_ok]
+  generalize hU : userData c.width c.height c.layout r.selected c.name = ud at hud
+  have hw1 : Per.writeLength ((ud.length % 65536 + 14) % 65536) = [0x80, 250] := by rw [hud]; decide
+  have hw2 : Per.writeOctetStream ud 0 = [0x80, 236] ++ ud := by
+    simp only [Per.writeOctetStream, hud]
+    have : Per.writeLength ((if 0 ≤ 236 then 236 - 0 else 0) % 65536) = [128, 236] := by decide
+    rw [this]
+  rw [hw1, hw2]
+  have hconf : ([0] ++ [5, 0, 20, 124, 0, 1] ++ [0x80, 250] ++ [0] ++ [8] ++ [0, 0x10] ++ Per.writePadding 1 ++ [1] ++ [0xc0] ++
+      Per.writeOctetStream [0x44, 0x75, 0x63, 0x61] 4 ++ ([0x80, 236] ++ ud) : Bytes).length = 259 := by
+    simp [Per.writePadding, Per.writeOctetStream, Per.writeLength, hud]
+  generalize hC : ([0] ++ [5, 0, 20, 124, 0, 1] ++ [0x80, 250] ++ [0] ++ [8] ++ [0, 0x10] ++ Per.writePadding 1 ++ [1] ++ [0xc0] ++
+      Per.writeOctetStream [0x44, 0x75, 0x63, 0x61] 4 ++ ([0x80, 236] ++ ud) : Bytes) = conf at hconf
+  have hlen : (x224DataHeader ++ connectInitial conf).length + 4 ≤ 65535 := by
+    have hd : (derOctets conf).length = 263 := by
+      simp only [derOctets, derTLV, List.length_cons, List.length_append, hconf]; decide
+    have : (connectInitial conf).length ≤ 1000 := by
+      unfold connectInitial
+      simp only [List.length_append, List.length_cons, List.length_nil, hd]
+      have e1 : (derOctets [1]).length = 3 := by decide
+      have e2 : (domainParameters [34, 2, 0, 1, 0, 1, 0xffff, 2]).length = 28 := by decide
+      have e3 : (domainParameters [1, 1, 1, 1, 0, 1, 0x420, 2]).length = 27 := by decide
+      have e4 : (domainParameters [0xffff, 0xfc17, 0xffff, 1, 0, 1, 0xffff, 2]).length = 34 := by decide
+      rw [e1, e2, e3, e4]
+      have e5 : (derLen (3 + 3 + (0 + 1 + 1 + 1) + 28 + 27 + 34 + 263)).length = 3 := by decide
+      rw [e5]
+      omega
+    simp [x224DataHeader]; omega
+  unfold x224Frame
+  simp only
+  rw [if_neg (by omega)]
+  exact ⟨_, rfl⟩
+
+theorem infoFrame_ok (c : Cfg) (uid : Nat) (v : RdpVersion) (h1 : 1001 ≤ uid)
+    (hs : (utf16le c.domain).length + (utf16le c.user).length + (utf16le c.password).length ≤ 60000) :
+    ∃ f, infoFrame c uid v = .ok f := by
+  unfold infoFrame Mcs.sendFrame
+  rw [c03_info_ids uid _ h1]
+  simp only [Outcome.bind_ok]
+  have hz : (utf16le []).length = 0 := by decide
+  have hl : (infoPdu c.mode (v == .v5plus) c.domain c.user c.password).length ≤ 60300 := by
+    unfold infoPdu
+    split
+    · unfold clientInfo extendedInfo
+      split <;> simp only [List.length_append, le16_length, le32_length, zeros_length, List.length_cons, List.length_nil, hz] <;> omega
+    · unfold clientInfo extendedInfo
+      split <;> simp only [List.length_append, le16_length, le32_length, zeros_length, List.length_cons, List.length_nil] <;> omega
+  have hwl : ∀ n, (Per.writeLength n).length ≤ 2 := by
+    intro n; unfold Per.writeLength; split <;> simp [encInt]
+  have := hwl ((infoPdu c.mode (v == .v5plus) c.domain c.user c.password).length % 65536)
+  rw [if_neg (by simp [x224DataHeader, encInt]; omega)]
+  exact ⟨_, rfl⟩
+
+theorem connectTrace_ok (c : Cfg) (r : Replies) (uid : Nat) (sd : ServerData) (ci j1 j2 info : Bytes) (b1 b2 : Bool)
+    (h1 : stage1 c r = .ok ci) (h2 : r.ccr.bind readConferenceCreateResponse = .ok sd)
+    (h4 : readAttachUserConfirm r.au = .ok uid) (h5 : joinFrame uid r.first = .ok j1)
+    (h6 : readChannelJoinConfirm uid r.first r.cjc1 = .ok b1)
+    (h7 : joinFrame uid (if r.first = 1003 then uid else 1003) = .ok j2)
+    (h8 : readChannelJoinConfirm uid (if r.first = 1003 then uid else 1003) r.cjc2 = .ok b2)
+    (h9 : infoFrame c uid sd.version = .ok info) (h10 : secRead uid r.lic = .ok ()) :
+    (connectTrace c r).2 = .ok (uid, sd) := by
+  unfold connectTrace
+  simp only [h1, h2, stage2_ok, h4, h5, h6, h7, h8, h9, h10]
+
+/-- **A conforming server is accepted.**  Against the replies of a conforming server — any
+    user id 1001..65535, any reported version, any selected protocol value, either accepted-
+    licence variant, either order of the two joins — and for every configuration whose
+    credentials fit one info packet, the connect phase succeeds, returns the assigned user id
+    and the reported version, and (by `c03_success`) emits exactly the mandated script. -/
+theorem c03_conforming_succeeds (c : Cfg) (uid sel first : Nat) (va vb vc vd sa sb sc sd : UInt8) (nl : Bool)
+    (h1 : 1001 ≤ uid) (h2 : uid ≤ 65535) (hf : first = 1003 ∨ first = uid)
+    (hs : (utf16le c.domain).length + (utf16le c.user).length + (utf16le c.password).length ≤ 60000) :
+    (connectTrace c (conformingReplies uid sel first va vb vc vd sa sb sc sd nl)).2 =
+      .ok (uid, ⟨[], versionOf (leNat [va, vb, vc, vd])⟩) := by
+  obtain ⟨ci, hci⟩ := stage1_ok c (conformingReplies uid sel first va vb vc vd sa sb sc sd nl)
+  have hsecond : (if first = 1003 then uid else 1003) ≤ 65535 := by split <;> omega
+  have hfirst : first ≤ 65535 := by rcases hf with h | h <;> omega
+  obtain ⟨j1, hj1⟩ := joinFrame_ok uid first h1
+  obtain ⟨j2, hj2⟩ := joinFrame_ok uid (if first = 1003 then uid else 1003) h1
+  obtain ⟨info, hinfo⟩ := infoFrame_ok c uid (versionOf (leNat [va, vb, vc, vd])) h1 hs
+  have hlic : secRead uid (sdin (if nl then licenceNew else licenceErrorValid)) = .ok () := by
+    cases nl
+    · exact (c03_licence_conforming uid).1
+    · exact (c03_licence_conforming uid).2
+  exact connectTrace_ok c _ uid _ ci j1 j2 info true true hci
+    (by simp only [conformingReplies, Outcome.bind_ok, c03_gcc_conforming])
+    (c03_attach_conforming uid h1 h2) hj1 (c03_join_conforming uid first h1 h2 hfirst) hj2
+    (c03_join_conforming uid (if first = 1003 then uid else 1003) h1 h2 hsecond) hinfo hlic
 
 end Rdp.Session
